@@ -112,7 +112,8 @@ fn eval(ctx: &Ctx, case: &Case) {
             ctx.trace();
             let Guard::Done(Ok(m)) = guard(|| Sm4CipherMode::new(&k, mk(mode))) else { return };
             let (d2, w2) = (data.clone(), want.clone());
-            let r = std::thread::spawn(move || guard(|| (m.decrypt(&w2, &ivb), m.encrypt(&d2, &ivb)))).join();
+            let m = crate::engine::Xfer::new(m);
+            let r = std::thread::spawn(move || guard(|| (m.get().decrypt(&w2, &ivb), m.get().encrypt(&d2, &ivb)))).join();
             match r {
                 Ok(Guard::Done((Ok(pt), Ok(ct)))) if pt == data && ct == want => ctx.outcome("ok/cross-thread"),
                 other => ctx.violation(&format!("Sm4CipherMode[{}]", mode), "wrong-result-on-another-thread", truncate(&format!("{:?}", other.map(|g| g.map(|(a, b)| (a.map(hex::encode), b.map(hex::encode))))), 200), cj()),
